@@ -642,7 +642,7 @@ def numericalJacobian(function_handle, x_init, delta):
     def ndfdx(x0p, x0m):
         return (function_handle(x0p) - function_handle(x0m)) / (2 * delta)
 
-    dfdx = ndfdx(x0p, x0m)
+    dfdx = np.reshape(ndfdx(x0p, x0m), (1, -1))
 
     for i in range(1, len(x_init)):
         x0p =  np.copy(x_init)
